@@ -26,6 +26,7 @@ def run(ctx, db, tier):
     who_writes_instance(ctx, db)
     fifo_ops(ctx, db)
     pause_rule(ctx, db)
+    resumed_once(ctx, db)
 
 
 def is_resume(ev):
@@ -276,3 +277,13 @@ def pause_rule(ctx, db):
                 bad = bad or ('the coroutine transferred to is not the head taken from the queue', tr)
         ctx.ob(rid, f, f['key'], bad is None, 'push_back(self) < front < pop_front, transfer to the head' + ('' if not bad else ' -- ' + bad[0]), desc=bad[0] if bad else None,
                trace=fmt_trace(bad[1]) if bad else None)
+
+
+def resumed_once(ctx, db):
+    """each queued coroutine is resumed exactly once: the carriers of ready handles hand them over linearly (shared with C06)"""
+    from . import C06
+    import inspect
+    code = inspect.getsource(C06.source_reset).replace("'C06.source-reset'", "'C05.handles-handed-over-once'").replace('def source_reset(', 'def _sr(')
+    ns = dict(C06.__dict__)
+    exec(code, ns)
+    ns['_sr'](ctx, db)
